@@ -167,15 +167,38 @@ def check(program: Program, run: Run) -> None:
 
     # R2: element classes of sets/dicts built by the library
     seen = set()
-    for f in program.all_functions():
+    from ..inline import inlined
+
+    def _find_arg(a):
+        """the class argument of `<x>.find_(Cls)`"""
+        if isinstance(a, ast.Call) and isinstance(a.func, ast.Attribute) and a.func.attr == "find_" and a.args:
+            return a.args[0]
+        return None
+    for f0 in program.all_functions():
+        f = inlined(program, f0)     # a collection loop moved into a private helper is read at its call sites
+        set_locals = set()
+        for n in ast.walk(f.node):
+            if isinstance(n, (ast.Assign, ast.AnnAssign)) and n.value is not None and (
+                    isinstance(n.value, ast.Set) or (isinstance(n.value, ast.Call) and isinstance(n.value.func, ast.Name) and n.value.func.id == "set" and not n.value.args)):
+                for t in (n.targets if isinstance(n, ast.Assign) else [n.target]):
+                    if isinstance(t, ast.Name):
+                        set_locals.add(t.id)
         for n in ast.walk(f.node):
             elem = None
+            carg = None
             if isinstance(n, ast.Call) and isinstance(n.func, ast.Name) and n.func.id == "set" and n.args:
-                a = n.args[0]
-                if isinstance(a, ast.Call) and isinstance(a.func, ast.Attribute) and a.func.attr == "find_" and a.args:
-                    elem = program.resolve_expr_class(f.module, a.args[0], None)
-                    if elem is None and isinstance(a.args[0], ast.Name):
-                        elem = program.find_cls(a.args[0].id)
+                carg = _find_arg(n.args[0])
+            elif isinstance(n, ast.SetComp) and len(n.generators) == 1 and isinstance(n.elt, ast.Name) and isinstance(n.generators[0].target, ast.Name) \
+                    and n.elt.id == n.generators[0].target.id:
+                carg = _find_arg(n.generators[0].iter)
+            elif isinstance(n, ast.For) and isinstance(n.target, ast.Name) and _find_arg(n.iter) is not None:
+                if any(isinstance(c_, ast.Call) and isinstance(c_.func, ast.Attribute) and c_.func.attr == "add" and isinstance(c_.func.value, ast.Name)
+                       and c_.func.value.id in set_locals and c_.args and isinstance(c_.args[0], ast.Name) and c_.args[0].id == n.target.id for c_ in ast.walk(n)):
+                    carg = _find_arg(n.iter)
+            if carg is not None:
+                elem = program.resolve_expr_class(f.module, carg, None)
+                if elem is None and isinstance(carg, ast.Name):
+                    elem = program.find_cls(carg.id)
             if elem is None:
                 continue
             ef = elem.resolve("__eq__")
